@@ -259,5 +259,58 @@ def r03_3(ctx):
     return r
 
 
+def r03_4(ctx):
+    """RFC 6347 4.1.2.1 / RFC 5288: the additional data of every AEAD open is seq_num (epoch||sequence of the
+    RECORD HEADER) || type || version || length. If the receiver rebuilds any of these from somewhere else (e.g.
+    the explicit nonce inside the payload), the corresponding header bits are not authenticated and a record with
+    a flipped epoch / sequence bit is still accepted."""
+    r = RuleResult("R03.4", "K4/dataflow", "the AEAD additional data is built from the record header fields as received")
+    D = "transports::dtls::"
+    aad = ctx.body(D + "make_aad")
+    # make_aad writes all four parameters into the 13 bytes
+    from engine import layout
+    wl = layout.writer_layout(aad)
+    want = {"seq": set(range(0, 8)), "content_type": {8}, "length": {11, 12}}
+    for k, v in want.items():
+        if wl.get(k) == v:
+            r.ok({"make_aad": "%s -> bytes %s" % (k, sorted(v))})
+        else:
+            r.violate(aad.name, "aad:%s" % k, aad.where(0), "make_aad writes %s to bytes %s, expected %s" % (k, sorted(wl.get(k, ())), sorted(v)))
+    n = 0
+    for fn in (D + "decrypt_record_with_cipher", D + "decrypt_record"):
+        if not ctx.facts.has_body(fn):
+            continue
+        b = ctx.body(fn)
+        r.scope.append(fn)
+        for bi, t, p in core.calls_to(b, suffix("dtls::make_aad")):
+            n += 1
+            a = [b.term_operand(x) for x in t["a"]]
+            ok = a[0] == ("arg", "seq") and a[1] == ("arg", "content_type") and a[2] == ("arg", "version") and \
+                mir.has(a[3], lambda x: x[0] == "call" and x[1].endswith("::len") and mir.has(x, lambda y: y == ("arg", "payload")))
+            if ok:
+                r.ok({"site": b.where(bi), "aad": "make_aad(seq, content_type, version, ciphertext length) from the caller's header values"})
+            else:
+                r.violate(fn, "aad:args", b.where(bi),
+                          "the additional data is built from %s instead of the sequence number / type / version of the record header"
+                          % ", ".join(mir.show(x, 40) for x in a[:3]))
+    tb = ctx.body(D + "DtlsInner::try_decrypt_record")
+    r.scope.append(tb.name)
+    for bi, t, p in core.calls_to(tb, suffix("dtls::decrypt_record_with_cipher", "dtls::decrypt_record")):
+        n += 1
+        a = [tb.term_operand(x) for x in t["a"]]
+        names = [mir.field_path(a[0]) or "", mir.field_path(a[1]) or ""]
+        seq_ok = len(a) >= 4 and mir.has_field(a[2], "epoch") and mir.has_field(a[2], "sequence_number") and \
+            mir.has(a[2], lambda x: x[0] == "bin" and x[1] == "Shl" and mir.int_value(x[3]) == 48)
+        if names[0].endswith("record.content_type") and names[1].endswith("record.version") and seq_ok and \
+                (mir.field_path(a[3]) or "").endswith("record.payload"):
+            r.ok({"site": tb.where(bi), "passes": "record.content_type, record.version, (record.epoch << 48) | record.sequence_number, record.payload"})
+        else:
+            r.violate(tb.name, "open:args", tb.where(bi),
+                      "the record opener is not given the header's type, version and (epoch << 48 | sequence_number): "
+                      "those header bits are not covered by the AEAD tag")
+    r.need("AEAD additional-data construction / use sites", n, 3)
+    return r
+
+
 def run(ctx):
-    return [r03_1(ctx), r03_2(ctx), r03_3(ctx)]
+    return [r03_1(ctx), r03_2(ctx), r03_3(ctx), r03_4(ctx)]
